@@ -299,6 +299,27 @@ def check_case(run: common.Run, kind: str, op: str, a: Any, b: Any, routes: str,
         binds = {"x": A} if op == "neg" else {"x": A, "y": B}
         for r in "IC":
             observations.append((f"bound-{r}", run_program(r, src, binds)))
+    composed = []
+    if "c" in routes:
+        # the operator applied twice (stacked / chained without parentheses, and parenthesised): expected by composing the exact model,
+        # so an operator pair that is "simplified" away (- - x, x - y + y ...) shows
+        def twice(first: Any) -> Any:
+            if first == ERR:
+                return ERR
+            return expected(kind, op, first, None if op == "neg" else b)
+
+        exp2 = exp_canon(kind, twice(exp)) if not (kind == "double" and exp != ERR and isinstance(exp, float) and exp != exp) else None
+        if exp2 is not None:
+            srcs = ["- - x", "-(-x)", "-(-(x))"] if op == "neg" else [f"x {op} y {op} y", f"(x {op} y) {op} y"]
+            binds = {"x": A} if op == "neg" else {"x": A, "y": B}
+            for src in srcs:
+                for r in "IC":
+                    composed.append((f"twice[{'stacked' if '(' not in src else 'parenthesised'}]-{r}", src, run_program(r, src, binds), exp2))
+    for route, src, got, want in composed:
+        gotc = got if got == ERR or got[0] == "crash" else obs_canon(kind, got[1])
+        if gotc != want:
+            report(f"{kind}-{op}-applied-twice-{route}-{'value-instead-of-error' if want == ERR else 'error-instead-of-value' if gotc == ERR else 'wrong-value'}", dict(case, route=route, src=src),
+                   f"{src}: expected {want!r} got {gotc!r}")
     if "d" in routes:
         la, lb = literal(kind, a), (literal(kind, b) if b is not None else "")
         if la is not None and lb is not None:
